@@ -53,8 +53,16 @@ SCRIPTS = [
     ("mysql", "create table s.t1 as select a from s.src; rename table s.t1 to s.t9; insert into s.t2 select * from s.t9"),
     ("non-validating", "create table s.t1 as select a, b from s.src; insert into s.t2 select * from s.t1"),
     ("ansi", "insert into s.t1 select a from s.src; create table s.t1 as select b, c from s.src; commit; insert into s.t2 select * from s.t1"),
+    # byte-identical to statements of the tsql scripts below (a process-wide statement cache would leak T-SQL parse trees into these runs)
+    ("ansi", "UPDATE s.t1 SET a = s.src.a FROM s.src WHERE s.src.b = s.t1.b"),
+    ("snowflake", "UPDATE s.t1 SET a = s.src.a FROM s.src WHERE s.src.b = s.t1.b"),
+    ("ansi", "SELECT a, b INTO s.t7 FROM s.src"),
+    ("postgres", "SELECT a, b INTO s.t7 FROM s.src"),
+    ("ansi", "INSERT INTO s.t2 SELECT * FROM s.t1"),
 ]
 TSQL_SCRIPTS = [
+    "UPDATE s.t1 SET a = s.src.a FROM s.src WHERE s.src.b = s.t1.b\nSELECT a, b INTO s.t7 FROM s.src",
+    "SELECT a, b INTO s.t7 FROM s.src\nCREATE INDEX i ON s.t7 (a)\nUPDATE s.t1 SET a = s.src.a FROM s.src WHERE s.src.b = s.t1.b",
     "SELECT a, b INTO s.t1 FROM s.src\nINSERT INTO s.t2 SELECT * FROM s.t1",
     "INSERT INTO s.t2 SELECT * FROM s.t1\nINSERT INTO s.t2 SELECT * FROM s.t1",
     "INSERT INTO s.t2 SELECT * FROM s.t1",
